@@ -520,12 +520,13 @@ func TestC09(t *testing.T) {
 	rep := kit.NewReport("C09", env)
 	rep.Rule = "(t) the reach claim over half an hour of virtual time: every router re-announces every 5 minutes, the routing-table cleaner runs every 10 minutes, reach checked after every round and right after every cleaner run (line4, ring4, star4; thorough also grid, line6, tree7); (r) the reach claim over the repository's real links (handshake, link encryption, reader/writer workers over harness-owned byte streams) for lines, ring, star (thorough: also line6, ring5, grid) x router-info padding; (i) exhaustive: for every connected labelled graph on 2 and 3 routers x label-size assignments x router-info sizes {0, 450, 1300 B} x clock tick {0, 1 ms}, with every router announcing on every link exactly as announceRouter does, ALL delivery orders of in-flight frames by BFS with dedup on (all routing tables, canonical in-flight multiset); for 4-router graphs ALL delivery orders of every single announcement (each origin, each Send call); (ii) large: lines, rings, stars, binary trees, grids and fixed pseudo-random connected graphs up to 16 routers with all routers announcing, each under four deterministic delivery disciplines (FIFO, LIFO, per-receiver round robin, longest-path-first) - enumerated, not all orders; (iii) router-info size sweep byte by byte across the pooled-buffer tiers on lines of 3-4 (thorough 6) routers; (iv) the same over real links (LinkBase over harness-owned streams, also with a transport that hands data over in 300-byte segments) and over 30 minutes of re-announcements with the table cleaner; (v) routers with addresses of each special range (roaming, organization, nexus pool, nexus org, anycast, experiments) in five layouts around ordinary routers, and one leaf of every range around an ordinary hub; (vi) restarts: converge, then all / all but one / one router start again with the state they stored, under the same, a changed, a dropped or a newly set universe name, links come up and everybody announces; every emitted frame is checked for the flooding rules, every quiescent state for reach + label walk over the real links; non-trivial = worlds with at least one relay (n >= 3); states = distinct canonical world states"
 	rep.Assumptions = []string{
-		"deliveries are atomic handler invocations (sequential world); concurrency inside one router is out of scope here",
+		"in the sequential parts deliveries are atomic handler invocations; concurrency inside one router is explored by the interleaving tier for link replacement and cleaner-vs-announcement only",
 		"a router only has to hold routes to routers that announced in the scenario (single-origin scenarios check reach of that origin only)",
 		"the virtual link mirrors the real link writer: a frame lacking the link margins is dropped, which is reported",
 	}
 	thorough := env.Thorough()
 	var evals, nontrivial int64
+	runFlapSched(t, rep, env) // first: the exhaustive parts below may use up the time budget
 	caseNo := 0
 	mine := func() bool { caseNo++; return env.Mine(caseNo) }
 	capStates := 4000
@@ -738,7 +739,6 @@ func TestC09(t *testing.T) {
 	overTime(t, rep, env, &evals, &nontrivial, mine)
 	addressTypes(t, rep, env, &evals, &nontrivial, mine)
 	restarts(t, rep, env, &evals, &nontrivial, mine)
-	runFlapSched(t, rep, env)
 
 	rep.Add(evals, nontrivial, 0, 0)
 	if err := rep.Finish(env); err != nil {
